@@ -157,7 +157,11 @@ Theorem gates_as_modelled :
   G.processed_check_before_verify = true /\
   G.processed_set_keyed_by_tx_hash = true /\
   G.sig_prefix_loop = "i := len(msg.GetSignData()); i > 0; i--"%string /\
-  G.relay_success_means = "winner is a transaction proof"%string.
+  G.relay_success_means = "winner is a transaction proof"%string /\
+  (* the processed set only grows and membership is pure key presence, as [processed] / [mem_hash] have it *)
+  G.is_tx_processed_consults = "key presence"%string /\
+  G.processed_store_users = ["isTxProcessed"; "setTxAsAlreadyProcessed"; "txAlreadyProcessedStore"]%string /\
+  G.processed_store_deleters = [].
 Proof. exact AttestSym.gates_as_modelled. Qed.
 
 Print Assumptions success_effects_only_if_calldata_matches_and_receipt_ok.
